@@ -14,6 +14,7 @@
 PyObject *
 psutil_users(PyObject *self, PyObject *args) {
     struct utmp *ut;
+    size_t host_len;
     PyObject *py_retlist = PyList_New(0);
     PyObject *py_tuple = NULL;
     PyObject *py_username = NULL;
@@ -27,16 +28,23 @@ psutil_users(PyObject *self, PyObject *args) {
         if (ut->ut_type != USER_PROCESS)
             continue;
         py_tuple = NULL;
-        py_username = PyUnicode_DecodeFSDefault(ut->ut_user);
+        // ut_user, ut_line and ut_host are fixed-width char arrays which
+        // are NOT NUL-terminated when the value fills the whole field.
+        py_username = PyUnicode_DecodeFSDefaultAndSize(
+            ut->ut_user, strnlen(ut->ut_user, sizeof(ut->ut_user)));
         if (! py_username)
             goto error;
-        py_tty = PyUnicode_DecodeFSDefault(ut->ut_line);
+        py_tty = PyUnicode_DecodeFSDefaultAndSize(
+            ut->ut_line, strnlen(ut->ut_line, sizeof(ut->ut_line)));
         if (! py_tty)
             goto error;
-        if (strcmp(ut->ut_host, ":0") == 0 || strcmp(ut->ut_host, ":0.0") == 0)
+        host_len = strnlen(ut->ut_host, sizeof(ut->ut_host));
+        if ((host_len == 2 && memcmp(ut->ut_host, ":0", 2) == 0) ||
+                (host_len == 4 && memcmp(ut->ut_host, ":0.0", 4) == 0))
             py_hostname = PyUnicode_DecodeFSDefault("localhost");
         else
-            py_hostname = PyUnicode_DecodeFSDefault(ut->ut_host);
+            py_hostname = PyUnicode_DecodeFSDefaultAndSize(
+                ut->ut_host, host_len);
         if (! py_hostname)
             goto error;
 
